@@ -1,3 +1,5 @@
+\* quick: every small well-formed file (<= 2 types, <= 2 items, <= 2 data blocks, both versions);
+\* all corruptions of the structurally maximal ones. Laws checked + cases printed.
 SPECIFICATION Spec
 CONSTANTS
   TypeSets <- TypeSetsQ
@@ -6,5 +8,6 @@ CONSTANTS
   DataLenSeqs <- DataLenSeqsQ
   Versions <- VersionsAll
   Fixups = TRUE
+  CorruptAll = FALSE
   Emit = FALSE
 INVARIANT Laws
